@@ -20,9 +20,47 @@ var (
 	noise    = []string{"BUSY TRUE", "BUSY FALSE", "PTT TRUE", "PTT FALSE", "PTT True", "PTT false", "NEWSTATE ISS", "NEWSTATE IRS", "NEWSTATE IRStoISS", "NEWSTATE IDLE",
 		"STATUS QUEUE 3 FRAMES", "PENDING", "CANCELPENDING", "FREQUENCY 14096400", "TUNE -120", "RDY", "BUSY True"}
 	idleNoise = []string{"BUSY TRUE", "BUSY FALSE", "PENDING", "CANCELPENDING", "FREQUENCY 7103500", "STATUS HELLO", "RDY"}
-	bareWords = []string{"BUFFER", "PTT", "NEWSTATE", "BUSY", "FAULT", "STATE", "CONNECTED", "TARGET", "MYCALL", "VERSION", "STATUS", "ARQBW", "GRIDSQUARE", "CODEC", "LISTEN", "FREQUENCY", "ARQTIMEOUT", "MYAUX", "CWID", "DRIVELEVEL"}
 	oddLines  = []string{"", " ", "BUFFER abc", "BUFFER -5", "BUFFER 99999999999999999999", "PTT maybe", "NEWSTATE BOGUS", "now now", "CONNECTED  ", "BUSY", "c:PTT TRUE", "PTT TRUE extra words", "buffer 0", "\x00\x01\x02", "ÆØÅ æøå", "INPUTPEAKS 123 456", "FAULT", "STATE", "TARGET"}
 )
+
+// every command word the host interface knows in the TNC->host direction
+// (spec sections 5 and 6 plus what ARDOPc adds)
+var ctlWords = []string{"CONNECTED", "CONNECTED", "TARGET", "TARGET", "DISCONNECTED", "NEWSTATE", "PTT", "BUFFER", "BUSY", "PENDING", "CANCELPENDING", "STATE", "FAULT",
+	"MYCALL", "MYAUX", "GRIDSQUARE", "ARQBW", "ARQTIMEOUT", "VERSION", "STATUS", "CODEC", "LISTEN", "CWID", "AUTOBREAK", "FSKONLY", "PROTOCOLMODE", "ARQCALL", "INITIALIZE",
+	"FREQUENCY", "DRIVELEVEL", "CAPTURE", "PLAYBACK", "CATPUREDEVICES", "PLAYBACKDEVICES", "TWOTONETEST", "REJECTEDBW", "REJECTEDBUSY", "INPUTPEAKS", "CRCFAULT", "RDY", "ABORT", "DISCONNECT", "SENDID", "CLOSE", "TUNE"}
+
+// malformedLine is a control line with the given command word that the
+// interface specification does not allow: no parameter, an empty one, too
+// many, or one of the wrong kind.
+func (g *genCtx) malformedLine(word string) string {
+	r := g.r
+	if word == "" {
+		word = "CONNECTED"
+	}
+	for try := 0; try < 6; try++ {
+		var line string
+		switch r.Pick(5, 3, 3, 2, 2, 1, 1) {
+		case 0:
+			line = word // no parameter
+		case 1:
+			line = word + core.Choice(r, []string{" ", "  ", " \t"}) // empty parameter
+		case 2:
+			line = word + " " + core.Choice(r, []string{"A B C D E", "TRUE FALSE", "1 2", "DISC ISS", "LA5NTA 500 EXTRA 7", "now now now"}) // too many
+		case 3:
+			line = word + " " + core.Choice(r, []string{"@@@", "-", "0x1F", "12abc", "TRUE?", ",,,", "[]"}) // wrong kind
+		case 4:
+			line = word + core.Choice(r, []string{" now", " now ", " NOW  "}) // echo-back form without a value
+		case 5:
+			line = strings.ToLower(word)
+		default:
+			line = word + " " + core.Choice(r, []string{",", " , ,", "LA5NTA,,LE3OF,"}) // list with empty elements
+		}
+		if !ardoptnc.LegalLine(line) {
+			return line
+		}
+	}
+	return strings.ToLower(word) + "\t" // a tab is never legal; the host sees the bare word
+}
 
 type genCtx struct {
 	r        *core.Rand
@@ -489,37 +527,103 @@ func genC14(tier string, r *core.Rand) Plan {
 	case "crcfault-cmd":
 		t.CrcFaultCmd = []int{r.Intn(16)}
 	case "malformed":
-		var e Ev
-		switch r.Pick(5, 4, 3, 3, 3, 1) {
+		// which script gets it: the connection set-up sequences and the session
+		// count most (a malformed line means something different at every step
+		// of them), the idle phase and the disconnect sequence less
+		var script *[]Ev
+		switch r.Pick(5, 4, 1, 1) {
 		case 0:
-			e = ctl(core.Choice(r, bareWords), g.delay())
+			if accept {
+				script = &t.Inbound
+			} else {
+				script = &t.Dial[r.Intn(len(t.Dial))]
+			}
 		case 1:
-			e = Ev{Kind: "dframe", Hex: core.Choice(r, []string{"", "41", "4152", "46", "4944"}), DelayUs: g.delay()}
+			script = &t.Session[r.Intn(len(t.Session))]
 		case 2:
-			e = ctl(core.Choice(r, oddLines), g.delay())
-		case 3:
+			script = &t.Idle
+		default:
+			script = &t.Disc
+		}
+		insert := func(pos int, e Ev) {
+			*script = append((*script)[:pos], append([]Ev{e}, (*script)[pos:]...)...)
+		}
+		switch r.Pick(12, 3, 2, 2, 1) {
+		case 0:
+			// a malformed control line: instead of, before or after a well-formed
+			// line of the script (then of the same command word as often as not),
+			// or anywhere with any command word the interface knows
+			if accept && r.Chance(0.25) {
+				// the inbound sequence after TARGET: a CONNECTED line that lacks its
+				// parameters, instead of or next to the well-formed one
+				script = &t.Inbound
+				ti, ci := -1, -1
+				for i, e := range t.Inbound {
+					if e.Kind == "ctl" && strings.HasPrefix(e.Arg, "TARGET") {
+						ti = i
+					}
+					if e.Kind == "ctl" && strings.HasPrefix(e.Arg, "CONNECTED") {
+						ci = i
+					}
+				}
+				if ti >= 0 && ci > ti {
+					e := ctl(core.Choice(r, []string{"CONNECTED", "CONNECTED ", "connected", "CONNECTED \t", "Connected  "}), g.delay())
+					switch r.Pick(2, 2, 1, 1) {
+					case 0:
+						e.DelayUs = t.Inbound[ci].DelayUs
+						t.Inbound[ci] = e
+					case 1:
+						insert(r.Range(ti+1, ci), e)
+					case 2:
+						insert(ci+1, e)
+					default:
+						e.Batch = true // in the segment of the line before it
+						insert(r.Range(ti+1, ci), e)
+					}
+					break
+				}
+			}
+			var ctls []int
+			for i, e := range *script {
+				if e.Kind == "ctl" {
+					ctls = append(ctls, i)
+				}
+			}
+			if len(ctls) > 0 && r.Chance(0.65) {
+				i := ctls[r.Intn(len(ctls))]
+				word, _, _ := strings.Cut(strings.TrimSpace((*script)[i].Arg), " ")
+				if r.Chance(0.3) {
+					word = core.Choice(r, ctlWords)
+				}
+				e := ctl(g.malformedLine(word), g.delay())
+				switch r.Pick(3, 1, 1) {
+				case 0:
+					e.DelayUs = (*script)[i].DelayUs
+					(*script)[i] = e // instead of it
+				case 1:
+					insert(i, e) // in addition, before
+				default:
+					insert(i+1, e) // in addition, after
+				}
+			} else {
+				line := g.malformedLine(core.Choice(r, ctlWords))
+				if r.Chance(0.25) {
+					line = core.Choice(r, oddLines)
+				}
+				insert(r.Intn(len(*script)+1), ctl(line, g.delay()))
+			}
+		case 1:
+			insert(r.Intn(len(*script)+1), Ev{Kind: "dframe", Hex: core.Choice(r, []string{"", "41", "4152", "46", "4944"}), DelayUs: g.delay()})
+		case 2:
 			b := r.Bytes(r.Range(1, 200))
 			if r.Bool() {
 				b = append(b, '\r')
 			}
-			e = Ev{Kind: "raw", Arg: "ctrl", Hex: hex.EncodeToString(b), DelayUs: g.delay()}
-		case 4:
-			e = Ev{Kind: "raw", Arg: "data", Hex: hex.EncodeToString(r.Bytes(r.Range(1, 200))), DelayUs: g.delay()}
+			insert(r.Intn(len(*script)+1), Ev{Kind: "raw", Arg: "ctrl", Hex: hex.EncodeToString(b), DelayUs: g.delay()})
+		case 3:
+			insert(r.Intn(len(*script)+1), Ev{Kind: "raw", Arg: "data", Hex: hex.EncodeToString(r.Bytes(r.Range(1, 200))), DelayUs: g.delay()})
 		default:
-			e = Ev{Kind: "dframe", Hex: hex.EncodeToString(append([]byte(core.Choice(r, []string{"XYZ", "arq", "AR"})), r.Bytes(r.Intn(20))...)), DelayUs: g.delay()}
-		}
-		switch r.Pick(6, 2, 2) {
-		case 0:
-			pos := r.Intn(len(t.Session[0]) + 1)
-			t.Session[0] = append(t.Session[0][:pos], append([]Ev{e}, t.Session[0][pos:]...)...)
-		case 1:
-			t.Idle = append(t.Idle, e)
-		default:
-			if accept {
-				t.Inbound = append([]Ev{e}, t.Inbound...)
-			} else {
-				t.Dial[len(t.Dial)-1] = append([]Ev{e}, t.Dial[len(t.Dial)-1]...)
-			}
+			insert(r.Intn(len(*script)+1), Ev{Kind: "dframe", Hex: hex.EncodeToString(append([]byte(core.Choice(r, []string{"XYZ", "arq", "AR"})), r.Bytes(r.Intn(20))...)), DelayUs: g.delay()})
 		}
 	}
 	if crcData && nWrites > 0 {
